@@ -6,6 +6,9 @@ let runners : (string * (string -> string list -> string list list -> (string ->
   ("C08", Drv_c01.run);
 ]
 
+(* model_input = "impl": the input is the harness output, not a case file *)
+let () = if Array.length Sys.argv > 2 && Sys.argv.(1) = "C04" then (Drv_c04.main Sys.argv.(2); exit 0)
+
 let () =
   let prop = Sys.argv.(1) and file = Sys.argv.(2) in
   let run = try Stdlib.List.assoc prop runners with Not_found -> (prerr_endline ("no model runner for " ^ prop); exit 2) in
